@@ -4,14 +4,12 @@
 From NixV Require Import Base.Prelude H5.Store Nix.Api.
 Open Scope N_scope.
 
-Inductive wtok := WN (n : Z) | WT (t : tok) | WNone.
 
 (* structure markers *)
 Definition m_open : wtok := WN (-1).
 Definition m_close : wtok := WN (-2).
 Definition m_err : wtok := WN (-3).
 
-Definition w_opt_tok (o : option tok) : wtok := match o with Some t => WT t | None => WNone end.
 Definition w_attr (s : store) (a : addr) (k : str) : list wtok :=
   match get_attr s a k with
   | Some (AText t) => [WT t]
@@ -154,6 +152,7 @@ Definition w_result (hsl : list handle) (s : store) (r : ores) : list wtok :=
       | Some hd => [WN 1; w_opt_tok (entity_id s (ha hd))]
       | None => [WN 1; WNone]
       end
+  | RToks l => WN 3 :: l
   | RErr e => [WN 2; WN (Z.of_N (err_code e))]
   end.
 
